@@ -171,6 +171,14 @@ func c05Scenarios(tier string) []*Scenario {
 		// fan-out
 		add([]GNode{depNodeFor("a", c1, "unsat"), {Name: "b", Beh: "ok", Deps: map[string]string{"a": c1}}, {Name: "c", Beh: "ok", Deps: map[string]string{"a": c1}}})
 	}
+	// the dependency failed and is stopped by the user while it waits out its restart back-off
+	{
+		a := GNode{Name: "a", Beh: "fail", Restart: "on_failure"}
+		b := GNode{Name: "b", Beh: "ok", Deps: map[string]string{"a": cSucc}}
+		restarting := func(w *World) bool { return w.lastStat["a"] == "Restarting" }
+		add([]GNode{a, b, {Name: "c", Beh: "ok", Deps: map[string]string{"b": cSucc}}}, []APICall{{Op: "stop", Name: "a", When: restarting}})
+		scs[len(scs)-1].TickBudget = 2
+	}
 	// `process-compose run b`: the main process carries exit_on_skipped (and implicitly exit_on_end) and is skipped
 	for _, c1 := range conds {
 		a := depNodeFor("a", c1, "unsat")
